@@ -29,6 +29,7 @@ type VWorld struct {
 	Prefix string // prefix of VNamespace
 	Pool   []model.PoolItem
 	Hists  int
+	Bm     *BackupManager // lazily created by the backup scenarios (one cursor per world, like one per hub)
 }
 
 // VScratchBase returns a scratch directory base outside /repo and /verif.
